@@ -176,10 +176,18 @@ func extractPostEarly(s *section) {
 	fd := fn("internal/pkg/postprocessor/item.go", "postprocessItem")
 	var guards []string
 	if fd != nil && fd.Body != nil {
+		// the run of consecutive top-level `if` statements (each possibly an if / else-if chain) that starts with the first one looking at the
+		// depth without redirections and goes on as long as every arm completes the item and returns
+		started := false
 		for _, st := range fd.Body.List {
 			ifs, ok := st.(*ast.IfStmt)
-			if !ok || ifs.Init != nil || !strings.Contains(nospace(ifs.Cond), "GetDepthWithoutRedirections()") {
-				continue
+			if !started {
+				if !ok || ifs.Init != nil || !strings.Contains(nospace(ifs.Cond), "GetDepthWithoutRedirections()") {
+					continue
+				}
+				started = true
+			} else if !ok || ifs.Init != nil || !completesAndReturns(ifs.Body) {
+				break
 			}
 			prev := ""
 			for cur := ifs; cur != nil; {
@@ -208,7 +216,6 @@ func extractPostEarly(s *section) {
 					cur = nil
 				}
 			}
-			break
 		}
 	}
 	if len(guards) == 0 {
